@@ -16,7 +16,7 @@ from cddvc import e1
 from cddvc.report import Run, compare_baseline
 from checks import common, domain, roundtrip as R, rt_matrix as M
 
-TYPES = ["int", "float", "str", "bool", "Optional[dict]", "Optional[int]", "Optional[str]", "Literal['x', 'y']"]
+TYPES = ["int", "float", "str", "bool", "Optional[dict]", "Optional[int]", "Optional[str]", "Literal['x', 'y']", "Literal[0, 1, 2]"]
 DOCS = ["the {name}", "[PK] Product stock keeping unit", "[PK] the key", "[FK(other_tbl.id)] ref to other", "ends in an ellipsis etc...", ""]
 VARIANTS = ("sqlalchemy", "sqlalchemy_table", "sqlalchemy_hybrid")
 
@@ -95,6 +95,20 @@ def main(tier, write_baseline=False):
     run.trusted_base.update(["cddvc E1 block contracts with symbolic-key maps whose unknown base entries are materialised on read", "z3 5.1"])
     run.assumptions.add("idiom: any(filter(rpartial(str.startswith, '[PK]'), map(methodcaller('get', 'doc', ''), params.values()))) is true iff some column description starts with '[PK]' (the branch condition of the verified block)")
     refuted = e1.run_contracts(run, "contracts.C05")
+    def enum_replay(_name):
+        # the clause the Literal -> Enum rule carries, on the real emitters / parsers: Literals of ints / mixed members round-trip
+        for typ_ in ("Literal[0, 1, 2]", "Literal['x', 'y']", "Optional[Literal[0, 5, 10]]", "Literal[1, 'a']", "Literal[-1, 1]"):
+            ir = domain.make_ir(((typ_, domain.ABSENT, "the {name}"),))
+            for cell in (("rest", False), ("google", True)):
+                try:
+                    r = [x for x in contract(cell, ir) if "typ" in x[0]]
+                except Exception:
+                    r = []
+                if r:
+                    return {"cell": list(cell), "ir": json.loads(json.dumps(ir, default=str)), "what": r[0][1][:300]}
+        return None
+
+    refuted, rule_inputs = run.confirm_or_undecide(refuted, enum_replay, is_rule=lambda n: "/structural/literal-enum/" in n)
     if write_baseline:
         common.write_baseline("C05", [n for n, o in run.obligations.items() if o["status"] == "proved"])
     compare_baseline(run, set(run.obligations))
@@ -124,7 +138,7 @@ def main(tier, write_baseline=False):
         if o["name"] in seen:
             continue
         seen.add(o["name"])
-        run.violation(o["name"], "obligation refuted by %s on path %s" % (o["backend"], " ".join(o["trace"])), solver_output={"model": o["model"], "smt2": (o["smt2"] or "")[:4000]})
+        run.violation(o["name"], "obligation refuted by %s on path %s%s" % (o["backend"], " ".join(o["trace"]), "; ".join((o.get("notes") or [])[:1])), failing_input=rule_inputs.get(o["name"]), solver_output={"model": o["model"], "smt2": (o["smt2"] or "")[:4000]})
     M.report(run, "C05/bounded", fails)
     M.flush_raise_baseline()
     common.apply_controls(run, tier)
